@@ -116,7 +116,8 @@ pub fn client_session(
         #[cfg(feature = "serial")]
         Framing::Rtu => (FrameWriter::rtu(), FramedReader::rtu_response()),
     };
-    let inner = crate::client::task::ClientLoop::new(rx.into(), writer, reader, decode, max_timeouts);
+    let inner =
+        crate::client::task::ClientLoop::new(rx.into(), writer, reader, decode, max_timeouts);
     (Channel { tx }, ClientSession { inner })
 }
 
